@@ -10,8 +10,15 @@ package protocol
 //@   nobody
 
 //@ pureiface VersionData.NetworkMagic VersionData.DiffusionMode VersionData.PeerSharing VersionData.Query
-// The per-version decoders stored in the version tables only decode their argument.
-//@ purefunc NewVersionDataFromCborFunc
+// The per-version decoders stored in the version tables only decode their argument, and what they
+// return is a function of the bytes they are given.
+//@ detfunc NewVersionDataFromCborFunc
+
+// The entry of the package-level version tables for a version number (the tables are written only
+// by their initialisers).
+//@ func GetProtocolVersion(version) (r)
+//@   props C18 C19
+//@   functional
 
 // C11: which messages the state machine admits. The successor state is the NewState of the first
 // transition of the current state whose message type equals the message's and whose match predicate
